@@ -408,7 +408,7 @@ def explore_forms(chunk):
                 break
             if any(HANG_OPERANDS.get(a, 0) >= 6 for a in t):
                 continue
-            if "10^400" in t and "*" in fname:
+            if "10^400" in t and "*" in FORMS2[fname][0]:
                 continue      # a repeat count of 10^400: resource exhaustion
             o = run_form(fname, t)
             agg.count("steps")
